@@ -14,9 +14,9 @@ export CARGO_NET_OFFLINE=true
 git apply "$SRC/patch.diff" >>"$L" 2>&1 || { echo "$SID: patch does not apply"; exit 1; }
 cargo test --workspace --offline --no-fail-fast >>"$L" 2>&1; suite=$?
 cp "$SRC/demo.rs" tests/demo.rs
-cargo test --offline --test demo >>"$L" 2>&1; with=$?
+cargo test --offline --test demo ${DEMO_FLAGS:-} >>"$L" 2>&1; with=$?
 git checkout -q -- .
-cargo test --offline --test demo >>"$L" 2>&1; without=$?
+cargo test --offline --test demo ${DEMO_FLAGS:-} >>"$L" 2>&1; without=$?
 rm -f tests/demo.rs
 echo "$SID: suite_with_change=$suite demo_with_change=$with demo_without=$without"
 if [ $suite -eq 0 ] && [ $with -ne 0 ] && [ $without -eq 0 ]; then
@@ -28,7 +28,7 @@ d,sid,prop=sys.argv[1:4]
 notes=open(os.path.join(d,'notes.md')).read() if os.path.exists(os.path.join(d,'notes.md')) else ''
 meta={"seed_id":sid,"breaks_property":prop,"origin":"independent sub-agent given only the property text and a scratch worktree",
 "needs_to_manifest":"see notes.md (written by the seeding agent)",
-"confirmed":{"suite_with_change":"cargo test --workspace --offline --no-fail-fast: exit 0","demo_with_change":"cargo test --offline --test demo: FAILED","demo_without_change":"cargo test --offline --test demo: passed","where":"scratch worktree /tmp/wt/confirm (removed afterwards)"},
+"confirmed":{"suite_with_change":"cargo test --workspace --offline --no-fail-fast: exit 0","demo_with_change":"cargo test --offline --test demo %s: FAILED"%os.environ.get("DEMO_FLAGS",""),"demo_without_change":"same command: passed","where":"scratch worktree /tmp/wt/confirm (removed afterwards)"},
 "detected_by":None}
 json.dump(meta,open(os.path.join(d,'meta.json'),'w'),indent=1)
 PY
